@@ -160,6 +160,17 @@ func (ctx *RootMetricContext) makeResultSet() (resultSet *commonmodels.ResultSet
 			// do expression eval
 			expression.Eval(it)
 
+			// a group without any value in query time range must not take part in order by/limit
+			hasValue := false
+			for _, values := range expression.ResultSet() {
+				if values != nil && !values.IsEmpty() {
+					hasValue = true
+					break
+				}
+			}
+			if !hasValue {
+				continue
+			}
 			// result order by/limit
 			orderBy.Push(aggregation.NewOrderByRow(it.Tags(), expression.ResultSet()))
 		}
